@@ -26,6 +26,7 @@ class Spec:
         self.ping_timeout = 4.0
         self.rounds = 3
         self.key = None                        # server ticket key (clients then connect with credentials)
+        self.reuse_transport = 0               # > 0: every client makes that many connections one after the other over ONE client transport
         self.round_gap = None                  # fixed pause between a client's rounds (None: 0.05..0.15 s)
         self.jitter = 0                        # > 0: genuine datagrams are delayed by content-addressed amounts (reordering) and a few are lost
         self.__dict__.update(kw)
@@ -148,20 +149,31 @@ def run(spec, seed, attack=None, flood=None, probes=None, reconnect=None):
                 creds, _ = ps.make_credentials(s, random.Random(seed * 31 + i), s["kerberos.key_size"], pid=1000 + i, server_key=spec.key)
             if c.get("start"):
                 await anyio.sleep(quant(c["start"]))          # a peer that arrives later (the same in both runs)
+            async def rounds(client, first_round, n):
+                out.client_addr[i] = client.local_address()
+                log.append(("app", sim.now(), "c%d" % i, "connected", 0, b""))
+                got = out.got.setdefault(i, [])
+                for r in range(first_round, first_round + n):
+                    msg = b"client%d:round%d:" % (i, r) + bytes([65 + i]) * rng.choice([1, 20, 60])
+                    await client.send(msg)
+                    with anyio.move_on_after(quant(spec.resend_timeout * (spec.resend_limit + 3))):
+                        d = await client.recv()
+                        got.append(d)
+                        log.append(("deliver", sim.now(), "c%d" % i, 0, d))
+                    pause = quant(0.05 + rng.random() * 0.1)
+                    await anyio.sleep(pause if spec.round_gap is None else quant(spec.round_gap))
             try:
-                async with prudp.connect(s, SERVER[0], SERVER[1], pt(c["vport"])[0], pt(c["vport"])[1], credentials=creds) as client:
-                    out.client_addr[i] = client.local_address()
-                    log.append(("app", sim.now(), "c%d" % i, "connected", 0, b""))
-                    got = out.got.setdefault(i, [])
-                    for r in range(spec.rounds):
-                        msg = b"client%d:round%d:" % (i, r) + bytes([65 + i]) * rng.choice([1, 20, 60])
-                        await client.send(msg)
-                        with anyio.move_on_after(quant(spec.resend_timeout * (spec.resend_limit + 3))):
-                            d = await client.recv()
-                            got.append(d)
-                            log.append(("deliver", sim.now(), "c%d" % i, 0, d))
-                        pause = quant(0.05 + rng.random() * 0.1)
-                        await anyio.sleep(pause if spec.round_gap is None else quant(spec.round_gap))
+                if spec.reuse_transport:
+                    # one client transport used for several connections one after the other (connect_transport + transport.connect):
+                    # each new connection is handed the virtual port the previous one released
+                    async with prudp.connect_transport(s, SERVER[0], SERVER[1]) as tr:
+                        for j in range(spec.reuse_transport):
+                            async with tr.connect(pt(c["vport"])[0], pt(c["vport"])[1], creds) as client:
+                                await rounds(client, j * spec.rounds, spec.rounds)
+                            await anyio.sleep(quant(0.0625))
+                else:
+                    async with prudp.connect(s, SERVER[0], SERVER[1], pt(c["vport"])[0], pt(c["vport"])[1], credentials=creds) as client:
+                        await rounds(client, 0, spec.rounds)
             except BaseException as e:
                 out.connect_errors[i] = repr(e)[:200]
 
@@ -265,7 +277,7 @@ def run(spec, seed, attack=None, flood=None, probes=None, reconnect=None):
                             tg.start_soon(prober)
                         if reconnect:
                             tg.start_soon(reconnector)
-                        await anyio.sleep(quant(spec.rounds * 0.6 + 2.0))
+                        await anyio.sleep(quant(spec.rounds * max(1, spec.reuse_transport) * 0.6 + 2.0))
                         tg.cancel_scope.cancel()
                     await anyio.sleep(quant(spec.resend_timeout * (spec.resend_limit + 2) + 0.5))
                     out.tables.append((sim.now(), {vp: len(st.clients) for vp, st in streams.items()}))
